@@ -41,7 +41,7 @@ def lang_of_path(path: str):
     return None
 
 
-HEAVY = {i for i, c in CONTENTS.items() if c.get("steps")}    # seconds per analysis: used sparingly
+HEAVY = {i for i, c in CONTENTS.items() if c.get("steps") or c.get("slow")}    # 0.7 s to seconds per analysis: used sparingly
 
 
 def ids_for(lang, shapes=None):
